@@ -12,6 +12,7 @@ import ast
 
 from .. import phys
 from ..algebra import BExpr, GExpr, Poly, b_ne0, select
+from ..arrnf import ANF, base_of, C, FULL, conjuncts, contains, expect, key, length_of, match, mk_not, mk_opn, show, strip_axis, subst, walk
 from ..astutil import U, assignments, calls, callee_name, const_str, own_walk
 from ..cfg import CFG, calls_in
 from ..kernelir import KInterp, PyVal, Unsupported
@@ -44,65 +45,125 @@ ASSUMPTIONS = ["scipy.sparse.csgraph.breadth_first_order returns the nodes reach
 TECHNIQUE = "per-class value numbering of extract_results with selector/NaN-strictness analysis; CFG dominance; structural agreement checks"
 
 
+def _shape(ok, what):
+    """the rule only understands the constructs it was written for; anything else is an analysis error, not a verdict"""
+    if not ok:
+        raise AnalysisError("unrecognised shape: " + what)
+
+
+def _rows_of(t, L):
+    """classify a row selector: 'active' (exactly the rows of lookup L), 'inactive' (~L), 'all', or None"""
+    t = strip_axis(t)
+    np_ = lambda n: ("x", "numpy." + n)
+    if key(t) == key(L):
+        return "active"
+    if t == FULL:
+        return "all"
+    if key(t) == key(mk_not("~", L)):
+        return "inactive"
+    if t[0] == "idx" and len(t[2]) == 1:
+        # arange(n)[L]   /   where(L)[0]
+        inner, sel = t[1], t[2][0]
+        if inner[0] == "call" and inner[1] == np_("arange") and len(inner[2]) == 1:
+            r = _rows_of(sel, L)
+            return r if r in ("active", "inactive") else None
+        if sel == C(0) and inner[0] == "call" and inner[1] in (np_("where"), np_("nonzero")) and len(inner[2]) == 1:
+            r = _rows_of(inner[2][0], L)
+            return r if r in ("active", "inactive") else None
+    if t[0] == "call" and t[1] == np_("flatnonzero") and len(t[2]) == 1:
+        r = _rows_of(t[2][0], L)
+        return r if r in ("active", "inactive") else None
+    return None
+
+
+def _excluded_columns(cols):
+    """columns a copied-column list leaves out / explicitly contains: ({excluded}, {included}) of constant terms"""
+    exc, inc = None, None
+    for x in walk(cols):
+        if isinstance(x, tuple) and x and x[0] == "cmp" and x[1] in ("not in", "in") and x[3][0] in ("list", "tuple", "set"):
+            items = {key(i) for i in x[3][1]}
+            if x[1] == "not in":
+                exc = (exc or set()) | items
+            else:
+                inc = (inc or set()) | items
+    if exc is None and inc is None and cols[0] in ("list", "tuple") or (cols[0] == "call" and cols[2] and cols[2][0][0] in ("list", "tuple")):
+        lst = cols if cols[0] in ("list", "tuple") else cols[2][0]
+        inc = {key(i) for i in lst[1]}
+    return exc, inc
+
+
+def _bind_call(fi, ev):
+    """parameter name -> argument term of a recorded call event"""
+    out = {}
+    for p_, a_ in zip(fi.params(), ev.args):
+        out[p_] = a_
+    for k_, v_ in ev.kw:
+        out[k_] = v_
+    return out
+
+
 def r4_1(run):
     ix = run.index
     f = ix.func(RE_ + ".extract_results_active_pit")
     run.analysed(f)
     w = run.where(f, f.node)
-    # result / not-affected columns per mode by constant propagation of the conditional expressions
-    def cond(name, mode):
-        asg = assignments(f.node, name)
-        if len(asg) != 1 or not isinstance(asg[0][1], ast.IfExp):
-            return None
-        e = asg[0][1]
-        t = U(e.test).replace(" ", "").replace('"', "'")
-        if t == "mode=='hydraulics'":
-            return U(e.body if mode == "hydraulics" else e.orelse)
-        return None
-    exp = {"hydraulics": {"result_node_col": "PINIT", "result_branch_col": "MDOTINIT", "not_affected_node_col": "TINIT_NODE",
-                          "not_affected_branch_col": "TOUTINIT"},
-           "heat_transfer": {"result_node_col": "TINIT_NODE", "result_branch_col": "TOUTINIT", "not_affected_node_col": "PINIT",
-                             "not_affected_branch_col": "MDOTINIT"}}
-    for mode, d in exp.items():
-        for k, v in d.items():
-            run.ob("%s|%s" % (mode, k), cond(k, mode) == v, "%s is %s in mode %s" % (k, v, mode), w, detail=str(cond(k, mode)))
-    stores = [n for n in own_walk(f.node) if isinstance(n, ast.Assign) and isinstance(n.targets[0], ast.Subscript)
-              and U(n.targets[0].value).replace('"', "'").startswith("net['_pit']")]
-    for kind, conn, rescol, rows, cols in (("node", "nodes_connected", "result_node_col", "rows_nodes", "copied_node_cols"),
-                                           ("branch", "branches_connected", "result_branch_col", "rows_branches", "copied_branch_cols")):
-        fill = [n for n in stores if U(n.targets[0].value).replace('"', "'") == "net['_pit']['%s']" % kind
-                and U(n.targets[0].slice).replace(" ", "").strip("()") == "~%s,%s" % (conn, rescol)]
-        copy = [n for n in stores if U(n.targets[0].value).replace('"', "'") == "net['_pit']['%s']" % kind
-                and "_active_pit" in U(n.value)]
-        ok = len(fill) == 1 and len(copy) == 1
-        run.ob("%s|nan-fill-and-copy-present" % kind, ok, "one NaN-fill of the non-connected rows and one copy-back of the active rows", w)
-        if not ok:
-            continue
-        run.ob("%s|nan-fill-before-copy" % kind, fill[0].lineno < copy[0].lineno,
-               "the %s result column of non-connected rows is filled before the active results are copied back" % kind,
-               run.where(f, fill[0]))
-        v = fill[0].value
-        ok = isinstance(v, ast.IfExp) and U(v.body) in ("np.nan", "numpy.nan") and U(v.test).replace(" ", "").replace('"', "'") == "mode=='hydraulics'"
-        run.ob("%s|hydraulic-fill-is-nan" % kind, ok, "in hydraulics mode the fill value is NaN", run.where(f, fill[0]))
-        # copy-back: rows of the connected elements, the copied column list on both sides
-        tsl = U(copy[0].targets[0].slice).replace(" ", "").strip("()")
-        vsl = U(copy[0].value).replace(" ", "").replace('"', "'")
-        ok = tsl.startswith("%s[:,np.newaxis],%s[np.newaxis,:]" % (rows, cols)) and vsl == "net['_active_pit']['%s'][:,%s]" % (kind, cols)
-        run.ob("%s|copy-back-aligned" % kind, ok, "active rows are copied to the rows of the connected elements, same column list on both sides",
-               run.where(f, copy[0]))
-        rdef = [U(v_).replace(" ", "").replace('"', "'") for _, v_, _ in assignments(f.node, rows)]
-        run.ob("%s|rows-of-connected" % kind, rdef == ["np.arange(net['_pit']['%s'].shape[0])[%s]" % (kind, conn)],
-               "%s are the positions of the connected %ss" % (rows, kind), w, detail=str(rdef))
-    # copied columns
-    cdef = {nm: U(assignments(f.node, nm)[0][1]).replace(" ", "") for nm in ("copied_node_cols", "copied_branch_cols")
-            if len(assignments(f.node, nm)) == 1}
-    run.ob("branch|renumbered-columns-not-copied", "ifinotin[FROM_NODE,TO_NODE,not_affected_branch_col]" in cdef.get("copied_branch_cols", ""),
-           "FROM_NODE/TO_NODE (renumbered in the active pit) and the not-affected column are not copied back", w)
-    run.ob("node|not-affected-column-not-copied", "ifinotin[not_affected_node_col]" in cdef.get("copied_node_cols", ""),
-           "the not-affected node column is not copied back", w)
-    cl = [U(v_).replace(" ", "").replace('"', "'") for nm in ("nodes_connected", "branches_connected") for _, v_, _ in assignments(f.node, nm)]
-    run.ob("lookups-of-mode", cl == ["get_lookup(net,'node','active_'+mode)", "get_lookup(net,'branch','active_'+mode)"],
-           "the connected masks are the active lookups of the mode being extracted", w, detail=str(cl))
+    params = f.params()
+    _shape(len(params) == 2, "extract_results_active_pit(net, mode)")
+    netp, modep = params
+    rescol = {"hydraulics": {"node": "PINIT", "branch": "MDOTINIT"}, "heat_transfer": {"node": "TINIT", "branch": "TOUTINIT"}}
+    for mode in ("hydraulics", "heat_transfer"):
+        r = ANF(ix, f, consts={modep: mode}, param_alias={netp: "net"}).run()
+        for kind in ("node", "branch"):
+            base = expect(ix, f, "net['_pit'][%r]" % kind)
+            act = expect(ix, f, "net['_active_pit'][%r]" % kind)
+            L = expect(ix, f, "get_lookup(net, %r, %r)" % (kind, "active_" + mode))
+            S = [s for s in r.stores() if key(s.base) == key(base)]
+            copies = [s for s in S if contains(s.value, act)]
+            fills = [s for s in S if not contains(s.value, act)]
+            k0 = "%s|%s" % (mode, kind)
+            run.ob(k0 + "|copy-back-present", len(copies) >= 1, "the active %s results are copied back into the full pit" % kind, w)
+            for c in copies:
+                wc = run.where(f, c.node)
+                _shape(len(c.index) == 2, "copy-back target is pit[rows, cols]")
+                rows = _rows_of(c.index[0], L)
+                if rows is None:
+                    # a selector built from another lookup is a defect, anything else is not understood
+                    other = [x for x in walk(c.index[0]) if x[0] == "call" and x[1][0] == "f" and x[1][1].endswith(".get_lookup")]
+                    _shape(bool(other), "row selector of the copy-back: %s" % show(c.index[0])[:120])
+                run.ob(k0 + "|copy-back-rows-are-the-active-rows", rows == "active",
+                       "the rows written by the copy-back are exactly the rows of the active %s lookup of mode %s" % (kind, mode), wc,
+                       detail=show(c.index[0])[:200])
+                cols = strip_axis(c.index[1])
+                v = c.value
+                _shape(v[0] == "idx" and key(v[1]) == key(act) and len(v[2]) == 2 and v[2][0] == FULL,
+                       "copy-back value is active_pit[:, cols]: %s" % show(v)[:120])
+                run.ob(k0 + "|copy-back-columns-aligned", key(v[2][1]) == key(cols),
+                       "the same column list selects the source and the target columns", wc,
+                       detail="%s / %s" % (show(cols)[:100], show(v[2][1])[:100]))
+                exc, inc = _excluded_columns(cols)
+                _shape(exc is not None or inc is not None, "copied column list: %s" % show(cols)[:120])
+                if kind == "branch":
+                    for col in ("FROM_NODE", "TO_NODE"):
+                        kc = key(expect(ix, f, col))
+                        ok = (kc in exc) if exc is not None else (kc not in inc)
+                        run.ob(k0 + "|renumbered-column-not-copied|" + col, ok,
+                               "%s (renumbered in the active pit) is not copied back" % col, wc)
+            if mode != "hydraulics":
+                continue
+            col = expect(ix, f, rescol[mode][kind] if kind == "branch" else "PINIT")
+            good = [s for s in fills if len(s.index) == 2 and key(s.index[1]) == key(col) and s.value == C("nan")
+                    and _rows_of(s.index[0], L) in ("inactive", "all")]
+            run.ob(k0 + "|nan-fill-present", len(good) >= 1,
+                   "%s of the %ss outside the active lookup is set to NaN" % (rescol[mode][kind], kind), w,
+                   detail="; ".join("%s[%s] = %s" % (show(s.base), ", ".join(show(i) for i in s.index)[:80], show(s.value)[:40]) for s in fills))
+            if good and copies:
+                run.ob(k0 + "|nan-fill-before-copy", min(s.seq for s in good) < min(c.seq for c in copies) and
+                       not any(_rows_of(s.index[0], L) == "all" and s.seq > min(c.seq for c in copies) for s in fills if len(s.index) == 2),
+                       "the NaN fill precedes the copy-back (a later fill of all rows would erase results)", run.where(f, good[0].node))
+            # no later store may overwrite the filled entries with something else
+            late = [s for s in fills if good and s.seq > good[0].seq and len(s.index) == 2 and key(s.index[1]) == key(col)
+                    and _rows_of(s.index[0], L) in ("inactive", "all") and s.value != C("nan")]
+            run.ob(k0 + "|nan-fill-not-overwritten", not late, "no later store replaces the NaN of the inactive %ss" % kind, w)
     run.floor(20)
 
 
@@ -192,43 +253,109 @@ def r4_3(run):
     f = ix.func(PS + ".reduce_pit")
     run.analysed(f)
     w = run.where(f, f.node)
-    lk = [U(v).replace(" ", "") for _, v, _ in assignments(f.node, "reduced_node_lookup")]
-    run.ob("reduce_pit|node-renumbering", lk == ["np.cumsum(nodes_connected)-1"],
-           "active node number = cumsum(nodes_connected) - 1", w, detail=str(lk))
-    st = {}
-    for n in own_walk(f.node):
-        if isinstance(n, ast.Assign) and isinstance(n.targets[0], ast.Subscript):
-            t = U(n.targets[0]).replace(" ", "").replace('"', "'")
-            st[t] = U(n.value).replace(" ", "").replace('"', "'")
-    a = st.get("active_pit['branch'][:,FROM_NODE]", "")
-    b = st.get("active_pit['branch'][:,TO_NODE]", "")
-    ok = a == "reduced_node_lookup[net['_pit']['branch'][branches_connected,FROM_NODE].astype(np.int32)]" and \
-        b == a.replace("FROM_NODE", "TO_NODE")
-    run.ob("reduce_pit|both-ends-same-remap", ok,
-           "FROM_NODE and TO_NODE of the active branches are both remapped through the same reduced_node_lookup", w, detail="%s / %s" % (a, b))
-    pc = [n for n in own_walk(f.node) if isinstance(n, ast.If) and U(n.test).replace(" ", "") == "notnp.all(nodes_connected)"]
-    run.ob("reduce_pit|remap-whenever-a-node-is-dropped", len(pc) == 1 and any("FROM_NODE" in U(s) for s in pc[0].body),
-           "the remap is applied whenever not all nodes are connected", w)
-    run.ob("reduce_pit|stores-active-pit", st.get("net['_active_pit']") == "active_pit" and st.get("net['_active_old_pit']") == "active_pit_old",
-           "the reduced tables are stored as _active_pit / _active_old_pit", w)
-    lkps = [U(v).replace(" ", "").replace('"', "'") for nm in ("nodes_connected", "branches_connected") for _, v, _ in assignments(f.node, nm)]
-    run.ob("reduce_pit|lookups-of-mode", lkps == ["get_lookup(net,'node','active_'+mode)", "get_lookup(net,'branch','active_'+mode)"],
-           "the masks used for the reduction are the active lookups of the requested mode", w)
+    params = f.params()
+    _shape(len(params) == 2, "reduce_pit(net, mode)")
+    r = ANF(ix, f, param_alias={params[0]: "net", params[1]: "mode"}).run()
+    NC = expect(ix, f, "get_lookup(net, 'node', 'active_' + mode)")
+    BC = expect(ix, f, "get_lookup(net, 'branch', 'active_' + mode)")
+    FROM, TO = expect(ix, f, "FROM_NODE"), expect(ix, f, "TO_NODE")
+    # stores that renumber the end nodes of the active branches
+    ends = {}
+    for s_ in r.stores():
+        if len(s_.index) == 2 and s_.index[1] in (FROM, TO) and s_.base[0] == "idx" and s_.base[2] == (C("branch"),):
+            ends.setdefault(s_.index[1][1].split(".")[-1], []).append(s_)
+    ok = set(ends) == {"FROM_NODE", "TO_NODE"} and all(len(v) == 1 for v in ends.values())
+    run.ob("reduce_pit|end-node-renumbering-present", ok,
+           "reduce_pit renumbers FROM_NODE and TO_NODE of the active branch table", w)
+    if ok:
+        sf, st_ = ends["FROM_NODE"][0], ends["TO_NODE"][0]
+        swapped = subst(sf.value, {key(FROM): TO})
+        run.ob("reduce_pit|both-ends-same-remap", key(swapped) == key(st_.value) and key(sf.base) == key(st_.base)
+               and key(sf.cond) == key(st_.cond),
+               "FROM_NODE and TO_NODE are remapped by the same expression (only the column differs), into the same table, "
+               "under the same condition", run.where(f, st_.node), detail="%s / %s" % (show(sf.value)[:150], show(st_.value)[:150]))
+        m = match(("idx", ("?", "remap"), (("?", "old"),)), sf.value)
+        _shape(m is not None, "end-node remap is remap[old]: %s" % show(sf.value)[:120])
+        remap, old = m["remap"], m["old"]
+        want_remap = expect(ix, f, "np.cumsum(L) - 1", env={"L": NC})
+        run.ob("reduce_pit|node-renumbering", key(remap) == key(want_remap),
+               "new node number = (number of active nodes up to and including the node) - 1 of the node lookup of the mode", w,
+               detail=show(remap)[:200])
+        want_old = expect(ix, f, "net['_pit']['branch'][B, FROM_NODE]", env={"B": BC})
+        run.ob("reduce_pit|remaps-the-old-end-nodes-of-the-active-branches", key(old) == key(want_old),
+               "the remap is applied to the full-pit end nodes of exactly the active branches of the mode", w, detail=show(old)[:200])
+        # condition: unconditional or `not all(nodes active)`
+        cond = sf.cond
+        ok = len(cond) == 0 or (len(cond) == 1 and cond[0][1] and key(cond[0][0]) == key(expect(ix, f, "not np.all(L)", env={"L": NC})))
+        run.ob("reduce_pit|remap-whenever-a-node-is-dropped", ok, "the remap is applied whenever not all nodes are active", w,
+               detail=str([(show(c)[:80], p) for c, p in cond]))
+        final = [s_ for s_ in r.stores() if key(s_.base if s_.base[0] != "upd" else base_of(s_.base)) == key(("n", "net"))
+                 and s_.index == (C("_active_pit"),)]
+        run.ob("reduce_pit|stores-the-renumbered-table", len(final) == 1 and key(final[0].value) == key(sf.base[1])
+               and final[0].seq > st_.seq or (len(final) == 1 and key(final[0].value) == key(sf.base[1])),
+               "the table that was renumbered is the one stored as net['_active_pit']", w)
+    # the two reductions are called with the lookups of the mode
+    for kind, L in (("node", NC), ("branch", BC)):
+        cs = [c for c in r.calls() if c.fn[0] == "f" and c.fn[1].endswith(".reduce_lookups") and len(c.args) >= 8 and c.args[1] == C(kind)]
+        run.ob("reduce_pit|reduce_lookups|%s" % kind, len(cs) == 1 and key(cs[0].args[7]) == key(L)
+               and key(cs[0].args[3]) == key(expect(ix, f, "net['_pit'][%r]" % kind)),
+               "the %s table is reduced by the active %s lookup of the mode" % (kind, kind), w)
+
     rl = ix.func(PS + ".reduce_lookups")
     run.analysed(rl)
     w = run.where(rl, rl.node)
-    src = [U(n).replace(" ", "") for n in ast.walk(rl.node) if isinstance(n, (ast.Assign,))]
-    run.ob("reduce_lookups|inactive=-1", "lu[elm_idx[~con_elems]]=-1" in src, "index entries of inactive elements become -1", w)
-    ok = any(s.startswith("lu[elm_idx[con_elems]]=(index_lookup_reduced[ft_lookup[tbl][0]:ft_lookup[tbl][1]][con_elems]-1)") for s in src) \
-        and "index_lookup_reduced=np.cumsum(connected_elements.astype(np.int32))" in src
-    run.ob("reduce_lookups|active=cumsum-1", ok, "index entries of active elements become their position in the active pit", w)
-    ok = "active_pit[comp_type]=np.copy(comp_pit[connected_elements,:])" in src
-    run.ob("reduce_lookups|rows-of-connected", ok, "the active pit holds exactly the connected rows, in pit order", w)
-    loops = [n for n in ast.walk(rl.node) if isinstance(n, ast.For) and "sorted(" in U(n.iter) and "n2t" in U(n.iter)]
-    ok = len(loops) == 1 and any("ft_active[tbl]=(count,count+le)" == U(s).replace(" ", "") for s in loops[0].body) \
-        and any("count+=le" == U(s).replace(" ", "") for s in loops[0].body)
-    run.ob("reduce_lookups|from_to-rebuilt-in-table-order", ok,
-           "the active from_to table is rebuilt cumulatively in table-number order", w)
+    ps = rl.params()
+    _shape(len(ps) == 9, "reduce_lookups has 9 parameters")
+    alias = dict(zip(ps, ("net", "comp_type", "mode", "comp_pit", "active_pit", "comp_pit_old", "active_pit_old", "connected", "idx_col")))
+    r = ANF(ix, rl, param_alias=alias).run()
+    st = r.stores()
+    rows = [s_ for s_ in st if key(base_of(s_.base)) == key(("n", "active_pit")) and s_.index == (("n", "comp_type"),)]
+    run.ob("reduce_lookups|rows-of-connected", len(rows) == 1 and key(rows[0].value) == key(expect(ix, rl, "comp_pit[connected, :]")),
+           "the active pit holds exactly the connected rows, in pit order", w, detail=show(rows[0].value)[:120] if rows else None)
+    # per-table index lookups: inactive -> -1, active -> position in the active pit
+    loop_st = [s_ for s_ in st if s_.loops and base_of(s_.base)[0] == "loop"]
+    neg = [s_ for s_ in loop_st if s_.value == C(-1)]
+    pos = [s_ for s_ in loop_st if s_.value != C(-1)]
+    _shape(len(neg) <= 1 and len(pos) <= 1, "one store per class of elements in the index-lookup loop")
+    T = None
+    for s_ in loop_st:
+        for x in walk(s_.index[0]):
+            if x[0] == "loop" and len(x) == 3:
+                T = ("loop", x[1], 0)
+    env = {"T": T or ("n", "T")}
+    A, B = "get_lookup(net, comp_type, 'from_to')[T][0]", "get_lookup(net, comp_type, 'from_to')[T][1]"
+    con = "connected[%s:%s]" % (A, B)
+    elm = "comp_pit[:, idx_col][%s:%s]" % (A, B)
+    run.ob("reduce_lookups|inactive=-1", len(neg) == 1 and key(neg[0].index[0]) == key(expect(ix, rl, "%s[~%s]" % (elm, con), env=env)),
+           "index entries of the inactive elements of each table become -1", w, detail=show(neg[0].index[0])[:200] if neg else None)
+    ok = len(pos) == 1 and key(pos[0].index[0]) == key(expect(ix, rl, "%s[%s]" % (elm, con), env=env)) \
+        and key(pos[0].value) == key(expect(ix, rl, "np.cumsum(connected)[%s:%s][%s] - 1" % (A, B, con), env=env))
+    run.ob("reduce_lookups|active=cumsum-1", ok,
+           "index entries of the active elements become their position in the active pit (running count of connected rows - 1)", w,
+           detail="%s = %s" % (show(pos[0].index[0])[:120], show(pos[0].value)[:160]) if pos else None)
+    if neg and pos:
+        lk = [s_ for s_ in st if s_.loops and key(s_.value[1] if s_.value[0] == "upd" else s_.value).find("'loop'") >= 0
+              and s_.base[0] == "idx" and s_.base[1][0] == "idx"]
+        run.ob("reduce_lookups|lookup-stored-per-table", any(base_of(s_.value) == base_of(pos[0].base) and contains(s_.base, C("_lookups"))
+                                                              and s_.seq > max(neg[0].seq, pos[0].seq) for s_ in st if s_.loops),
+               "the renumbered copy is what is stored as the active index lookup of the table", w)
+    # from_to table rebuilt cumulatively
+    ft = [s_ for s_ in st if s_.loops and s_.value[0] in ("tuple", "list") and len(s_.value[1]) == 2 and base_of(s_.base)[0] == "new"]
+    ok = len(ft) == 1
+    if ok:
+        lo, hi = ft[0].value[1]
+        T2 = ft[0].index[0]
+        le = expect(ix, rl, "np.sum(connected[get_lookup(net, comp_type, 'from_to')[T][0]:get_lookup(net, comp_type, 'from_to')[T][1]])", env={"T": T2})
+        ok = lo[0] == "carried" and lo[2] == C(0) and key(hi) == key(mk_opn("+", [lo, le]))
+        lid = ft[0].loops[-1]
+        nxt = r.loops[lid]["env"].get(lo[1])
+        ok = ok and nxt is not None and key(nxt) == key(hi)
+        it = r.loops[lid]["iter"]
+        ok_sorted = it[0] == "call" and it[1] == ("x", "builtins.sorted")
+        run.ob("reduce_lookups|from_to-in-table-order", ok_sorted, "tables are visited in table-number order", w, detail=show(it)[:120])
+    run.ob("reduce_lookups|from_to-rebuilt-cumulatively", ok,
+           "the active from_to range of a table starts where the previous one ended and spans its number of connected rows", w,
+           detail=show(ft[0].value)[:200] if ft else None)
     run.floor(9)
 
 
@@ -236,19 +363,31 @@ def r4_4(run):
     ix = run.index
     f = ix.func(PS + ".identify_active_nodes_branches")
     run.analysed(f)
-    cfg = CFG(f.node)
-    guards = [n for n in cfg.nodes if n.kind == "if" and U(n.test).replace(" ", "") == "np.all(~nodes_connected)"]
-    ok = len(guards) == 1
-    run.ob("identify|guard-present", ok, "identify_active_nodes_branches tests np.all(~nodes_connected)", run.where(f, f.node))
-    if ok:
-        gnode = guards[0]
-        t = [b for b, lab in cfg.succ[gnode.id] if lab == "T"]
-        raises = cfg.always_raises(t) and any(isinstance(x, ast.Raise) and "PipeflowNotConverged" in U(x.exc) for x in ast.walk(gnode.ast))
-        run.ob("identify|raises-when-nothing-supplied", raises, "... and raises PipeflowNotConverged in that case", run.where(f, gnode.ast))
-        ungated = cfg.reachable([cfg.entry], lambda a, b, lab: not (a == gnode.id and lab == "F"))
-        stores = [n for n in cfg.nodes if n.kind == "stmt" and isinstance(n.ast, ast.Assign) and "_lookups" in U(n.ast.targets[0])]
-        run.ob("identify|lookups-stored-after-guard", len(stores) == 2 and all(s.id not in ungated for s in stores),
-               "the active lookups are stored only after the guard passed", run.where(f, f.node))
+    w = run.where(f, f.node)
+    ps = f.params()
+    _shape(len(ps) == 2, "identify_active_nodes_branches(net, hydraulic)")
+    for hyd in (True, False):
+        r = ANF(ix, f, consts={ps[1]: hyd}, param_alias={ps[0]: "net"}).run()
+        mode = "hydraulics" if hyd else "heat_transfer"
+        lk = expect(ix, f, "net['_lookups']")
+        node_st = [s_ for s_ in r.stores() if key(base_of(s_.base)) == key(lk) and s_.index == (C("node_active_" + mode),)]
+        br_st = [s_ for s_ in r.stores() if key(base_of(s_.base)) == key(lk) and s_.index == (C("branch_active_" + mode),)]
+        k0 = "identify|%s" % mode
+        run.ob(k0 + "|lookups-stored", len(node_st) == 1 and len(br_st) == 1,
+               "the node and branch lookups of the mode are stored exactly once", w)
+        if len(node_st) != 1:
+            continue
+        NCv = node_st[0].value
+        none_supplied = {key(expect(ix, f, t, env={"X": NCv})) for t in ("np.all(~X)", "not np.any(X)", "~np.any(X)", "np.sum(X) == 0",
+                                                                         "not X.any()", "(~X).all()")}
+        rs = [e for e in r.raises() if e.value[0] == "call" and e.value[1][0] == "f" and e.value[1][1].endswith(".PipeflowNotConverged")]
+        good = [e for e in rs if len(e.cond) == 1 and e.cond[0][1] and key(e.cond[0][0]) in none_supplied]
+        run.ob(k0 + "|raises-when-nothing-supplied", len(good) >= 1,
+               "PipeflowNotConverged is raised when no node of the stored node lookup is supplied", w,
+               detail="; ".join(show(e.cond[0][0])[:100] for e in rs if e.cond))
+        if good:
+            run.ob(k0 + "|lookups-stored-after-guard", good[0].seq < node_st[0].seq and good[0].seq < br_st[0].seq if br_st else False,
+                   "the active lookups are stored only after the guard passed", run.where(f, node_st[0].node))
     # pipeflow: identification dominates the stages
     pf = ix.func(P + ".pipeflow")
     run.analysed(pf)
@@ -277,33 +416,66 @@ def r4_5(run):
     f = ix.func(PS + ".check_connectivity")
     run.analysed(f)
     w = run.where(f, f.node)
-    sl = {}
-    for n in ast.walk(f.node):
-        if isinstance(n, ast.If) and U(n.test).replace(" ", "").replace('"', "'") == "mode=='hydraulics'":
-            sl["hyd"] = U(n.body[0].value).replace(" ", "")
-            sl["heat"] = U(n.orelse[0].value).replace(" ", "")
-    run.ob("slacks|hydraulic", sl.get("hyd") == "np.where((node_pit[:,NODE_TYPE]==P)&nodes_connected)[0]",
-           "hydraulic search starts from NODE_TYPE == P nodes that are in service", w, detail=sl.get("hyd"))
-    run.ob("slacks|thermal", sl.get("heat") == "np.where(((node_pit[:,NODE_TYPE_T]==T)|(node_pit[:,NODE_TYPE_T]==GE))&nodes_connected)[0]",
-           "thermal search starts from NODE_TYPE_T in {T, GE} nodes that are active", w, detail=sl.get("heat"))
+    ps = f.params()
+    _shape(len(ps) == 6, "check_connectivity has 6 parameters")
+    alias = dict(zip(ps, ("net", "branch_pit", "node_pit", "branches_connected", "nodes_connected", "mode")))
     pcs = ix.func(PS + ".perform_connectivity_search")
+    want = {"hydraulics": ["np.where((node_pit[:, NODE_TYPE] == P) & nodes_connected)[0]",
+                           "np.flatnonzero((node_pit[:, NODE_TYPE] == P) & nodes_connected)"],
+            "heat_transfer": ["np.where(((node_pit[:, NODE_TYPE_T] == T) | (node_pit[:, NODE_TYPE_T] == GE)) & nodes_connected)[0]",
+                              "np.flatnonzero(((node_pit[:, NODE_TYPE_T] == T) | (node_pit[:, NODE_TYPE_T] == GE)) & nodes_connected)",
+                              "np.where(np.isin(node_pit[:, NODE_TYPE_T], [T, GE]) & nodes_connected)[0]"]}
+    for mode, forms in want.items():
+        r = ANF(ix, f, consts={ps[5]: mode}, param_alias=alias).run()
+        cs = [c for c in r.calls() if c.fn == ("f", pcs.qualname)]
+        _shape(len(cs) == 1, "check_connectivity calls perform_connectivity_search once (mode %s)" % mode)
+        b_ = _bind_call(pcs, cs[0])
+        sl = b_.get(pcs.params()[3])
+        run.ob("slacks|%s" % mode, sl is not None and key(sl) in {key(expect(ix, f, t)) for t in forms},
+               {"hydraulics": "the hydraulic search starts from the active nodes with NODE_TYPE == P",
+                "heat_transfer": "the thermal search starts from the active nodes with NODE_TYPE_T in {T, GE}"}[mode], w,
+               detail=show(sl)[:200] if sl is not None else None)
+        run.ob("slacks|%s|lookups-passed-through" % mode, key(b_.get(pcs.params()[4])) == key(("n", "nodes_connected"))
+               and key(b_.get(pcs.params()[5])) == key(("n", "branches_connected")) and b_.get(pcs.params()[6]) == C(mode),
+               "the initial node / branch masks and the mode are passed to the search unchanged", w)
     run.analysed(pcs)
-    src = [U(n).replace(" ", "") for n in ast.walk(pcs.node) if isinstance(n, ast.Assign)]
     w = run.where(pcs, pcs.node)
-    run.ob("flow-return|removed-before-search", "connect=branch_pit[:,FLOW_RETURN_CONNECT].astype(bool)" in src
-           and "active_branch_lookup=active_branch_lookup&~connect" in src,
-           "FLOW_RETURN_CONNECT branches do not establish hydraulic connectivity", w)
-    run.ob("flow-return|readmitted-if-both-ends-connected",
-           "active=nodes_connected[from_nodes]&nodes_connected[to_nodes]&branch_active" in src
-           and "branches_connected[connect&active]=True" in src and "branch_active=branch_pit[:,ACTIVE].astype(bool)" in src,
-           "they are re-admitted only if both end nodes are connected and the branch is in service", w)
-    # order: removal, search, re-admission
-    body = [n for n in ast.walk(pcs.node) if isinstance(n, ast.If)][0].body
-    order = [U(s).replace(" ", "") for s in body]
-    i_rm = next((i for i, s in enumerate(order) if s.startswith("active_branch_lookup=active_branch_lookup&~")), -1)
-    i_se = next((i for i, s in enumerate(order) if "_connectivity(" in s), -1)
-    i_re = next((i for i, s in enumerate(order) if s.startswith("branches_connected[connect&active]")), -1)
-    run.ob("flow-return|order", 0 <= i_rm < i_se < i_re, "removal precedes the search, re-admission follows it", w)
+    pp = pcs.params()
+    _shape(len(pp) == 7, "perform_connectivity_search has 7 parameters")
+    alias = dict(zip(pp, ("net", "node_pit", "branch_pit", "slack_nodes", "active_node_lookup", "active_branch_lookup", "mode")))
+    r = ANF(ix, pcs, consts={pp[6]: "hydraulics"}, param_alias=alias).run()
+    conn = ix.func(PS + "._connectivity")
+    cs = [c for c in r.calls() if c.fn == ("f", conn.qualname)]
+    _shape(len(cs) == 1, "perform_connectivity_search calls _connectivity once in hydraulics mode")
+    b_ = _bind_call(conn, cs[0])
+    FRC = expect(ix, pcs, "branch_pit[:, FLOW_RETURN_CONNECT]")
+    abl = b_.get(conn.params()[3])
+    run.ob("flow-return|removed-before-search", abl is not None and key(abl) == key(expect(ix, pcs, "active_branch_lookup & ~F", env={"F": FRC})),
+           "FLOW_RETURN_CONNECT branches do not establish hydraulic connectivity: the search sees active & ~flow_return_connect", w,
+           detail=show(abl)[:200] if abl is not None else None)
+    rets = r.returns()
+    _shape(len(rets) == 1 and rets[0].value[0] in ("tuple", "list") and len(rets[0].value[1]) == 2, "returns (nodes_connected, branches_connected)")
+    nc, bc = rets[0].value[1]
+    res = cs[0].term
+    run.ob("flow-return|nodes-from-search", key(nc) == key(("proj", res, 0)), "the node result is the search result", w)
+    m = match(("upd", ("proj", res, 1), (("?", "sel"),), C(True)), bc)
+    run.ob("flow-return|readmission-present", m is not None,
+           "the branch result is the search result with flow-return-connecting branches re-admitted", w, detail=show(bc)[:200])
+    if m is not None:
+        got = {key(x) for x in conjuncts(m["sel"])}
+        need = {"flow_return_connect": FRC, "branch in service (ACTIVE)": expect(ix, pcs, "branch_pit[:, ACTIVE]"),
+                "from node connected": expect(ix, pcs, "N[branch_pit[:, FROM_NODE]]", env={"N": ("proj", res, 0)}),
+                "to node connected": expect(ix, pcs, "N[branch_pit[:, TO_NODE]]", env={"N": ("proj", res, 0)})}
+        for nm, t in need.items():
+            run.ob("flow-return|readmitted-only-if|%s" % nm.split(" (")[0].replace(" ", "-"), key(t) in got,
+                   "a flow-return-connecting branch is re-admitted only if: %s" % nm, w, detail=show(m["sel"])[:300])
+    r2 = ANF(ix, pcs, consts={pp[6]: "heat_transfer"}, param_alias=alias).run()
+    cs2 = [c for c in r2.calls() if c.fn == ("f", conn.qualname)]
+    _shape(len(cs2) == 1, "perform_connectivity_search calls _connectivity once in heat mode")
+    b2 = _bind_call(conn, cs2[0])
+    run.ob("thermal-search|masks-unchanged", key(b2.get(conn.params()[3])) == key(("n", "active_branch_lookup"))
+           and key(b2.get(conn.params()[4])) == key(("n", "active_node_lookup")),
+           "the thermal search uses the given masks unchanged", w)
     # writers of FLOW_RETURN_CONNECT
     writers = {}
     for c in ix.components():
@@ -344,47 +516,100 @@ def r4_7(run):
     f = ix.func(PS + "._connectivity")
     run.analysed(f)
     w = run.where(f, f.node)
-    A = {U(n.targets[0]): n.value for n in own_walk(f.node) if isinstance(n, ast.Assign) and isinstance(n.targets[0], ast.Name)}
-    S = lambda nm: U(A.get(nm)).replace(" ", "")
+    ps = f.params()
+    _shape(len(ps) == 7, "_connectivity has 7 parameters")
+    alias = dict(zip(ps, ("net", "branch_pit", "node_pit", "active_branch_lookup", "active_node_lookup", "slack_nodes", "mode")))
+    r = ANF(ix, f, param_alias=alias).run()
+    np_ = lambda n: ("x", "numpy." + n)
+    coo = [c for c in r.calls() if c.fn[0] == "x" and c.fn[1].endswith(("coo_matrix", "csr_matrix", "csc_matrix"))]
+    _shape(len(coo) == 1 and len(coo[0].args) >= 1, "one sparse adjacency matrix is built")
+    m = match(("tuple", (("?", "data"), ("tuple", (("?", "fn"), ("?", "tn"))))), coo[0].args[0])
+    _shape(m is not None, "adjacency matrix from (data, (rows, cols)): %s" % show(coo[0].args[0])[:100])
 
-    def parts(nm):
-        v = A.get(nm)
-        if isinstance(v, ast.Call) and callee_name(v) == "concatenate" and isinstance(v.args[0], ast.List):
-            return [U(e).replace(" ", "") for e in v.args[0].elts]
-        return []
-    fn, tn = parts("fn_matrix"), parts("tn_matrix")
-    ok = len(fn) == len(tn) == 3 and fn[0] == "active_from_nodes" and tn[0] == "active_to_nodes" \
-        and fn[1] == "active_to_nodes_ud" and tn[1] == "active_from_nodes_ud" \
-        and fn[2] == "np.full(len(slack_nodes),len_nodes,dtype=np.int32)" and tn[2] == "slack_nodes"
-    run.ob("adjacency|pairwise-aligned", ok,
-           "edges: (from, to) of active branches, (to, from) of undirected active branches, (virtual node, slack)", w,
-           detail="%s / %s" % (fn, tn))
-    defs = {"active_from_nodes": "from_nodes[active_branch_lookup]", "active_to_nodes": "to_nodes[active_branch_lookup]",
-            "active_from_nodes_ud": "from_nodes[active_branch_lookup&~directed]", "active_to_nodes_ud": "to_nodes[active_branch_lookup&~directed]",
-            "nobranch": "np.sum(active_branch_lookup)", "nobranch_ud": "np.sum(active_branch_lookup&~directed)",
-            "from_nodes": "branch_pit[:,FROM_NODE].astype(np.int32)", "to_nodes": "branch_pit[:,TO_NODE].astype(np.int32)",
-            "directed": "branch_pit[:,DIRECTED].astype(bool)", "len_nodes": "len(node_pit)"}
-    for k, v in defs.items():
-        run.ob("adjacency|def|%s" % k, S(k) == v, "%s = %s" % (k, v), w, detail=S(k))
-    adj = A.get("adj_matrix")
-    ok = isinstance(adj, ast.Call) and callee_name(adj) == "coo_matrix"
-    if ok:
-        a0 = U(adj.args[0]).replace(" ", "")
-        sh = [U(k.value).replace(" ", "") for k in adj.keywords if k.arg == "shape"]
-        ok = a0 == "(np.ones(nobranch+nobranch_ud+len(slack_nodes)),(fn_matrix,tn_matrix))" and sh == ["(len_nodes+1,len_nodes+1)"]
-    run.ob("adjacency|data-length-and-shape", ok,
-           "the data vector has one entry per edge and the matrix has one extra (virtual) node", w)
-    ok = S("reachable_nodes").startswith("reachable_nodes[reachable_nodes!=len_nodes]") or any(
-        U(n).replace(" ", "") == "reachable_nodes=reachable_nodes[reachable_nodes!=len_nodes]" for n in own_walk(f.node))
-    bfs = [U(n.value).replace(" ", "") for n in own_walk(f.node) if isinstance(n, ast.Assign) and "breadth_first_order" in U(n.value)]
-    run.ob("search|starts-at-virtual-node", bfs == ["csgraph.breadth_first_order(adj_matrix,len_nodes,True,False)"] and ok,
-           "the directed search starts at the virtual node, which is removed from the result", w, detail=str(bfs))
-    run.ob("search|branches-connected", S("branches_connected") == "active_branch_lookup&nodes_connected[from_nodes]",
-           "a branch is connected iff it is active and its from node was reached", w)
-    chk = [n for n in own_walk(f.node) if isinstance(n, ast.If) and "active_from_nodes_ud" in U(n.test) and any(isinstance(x, ast.Raise) for x in n.body)]
-    run.ob("search|undirected-end-consistency-asserted", len(chk) == 1,
+    def parts(t):
+        if t[0] == "call" and t[1] == np_("concatenate") and t[2] and t[2][0][0] in ("list", "tuple"):
+            return list(t[2][0][1])
+        return None
+    pf, pt = parts(m["fn"]), parts(m["tn"])
+    _shape(pf is not None and pt is not None, "edge lists are np.concatenate([...])")
+    run.ob("adjacency|same-number-of-parts", len(pf) == len(pt), "row and column index lists have the same parts", w)
+    From, To = expect(ix, f, "branch_pit[:, FROM_NODE]"), expect(ix, f, "branch_pit[:, TO_NODE]")
+    ABL = ("n", "active_branch_lookup")
+    directed = expect(ix, f, "branch_pit[:, DIRECTED]")
+    V = None
+    fwd, rev, slack, other = [], [], [], []
+    for a_, b_ in zip(pf, pt):
+        ma, mb = match(("idx", ("?", "v"), (("?", "m"),)), a_), match(("idx", ("?", "v"), (("?", "m"),)), b_)
+        if ma and mb and key(ma["m"]) == key(mb["m"]) and key(ma["v"]) == key(From) and key(mb["v"]) == key(To):
+            fwd.append(ma["m"])
+        elif ma and mb and key(ma["m"]) == key(mb["m"]) and key(ma["v"]) == key(To) and key(mb["v"]) == key(From):
+            rev.append(ma["m"])
+        elif a_[0] == "call" and a_[1] == np_("full") and len(a_[2]) >= 2 and key(b_) == key(("n", "slack_nodes")):
+            slack.append(a_)
+            V = a_[2][1]
+        else:
+            other.append((a_, b_))
+    run.ob("adjacency|pairwise-aligned", not other,
+           "every part pairs the from and to nodes of the same branch selection (or the virtual node with the slack nodes)", w,
+           detail="; ".join("%s -> %s" % (show(x)[:80], show(y)[:80]) for x, y in other))
+    run.ob("adjacency|forward-edges-of-all-active-branches", len(fwd) == 1 and key(fwd[0]) == key(ABL),
+           "every active branch contributes the edge from -> to", w, detail=str([show(x) for x in fwd]))
+    ok = len(rev) == 1 and key(rev[0]) == key(mk_opn("&", [ABL, mk_not("~", directed)]))
+    run.ob("adjacency|reverse-edges-only-of-undirected-active-branches", ok,
+           "exactly the active branches that are not DIRECTED contribute the edge to -> from", w, detail=str([show(x) for x in rev]))
+    ok = len(slack) == 1 and key(slack[0][2][0]) == key(expect(ix, f, "len(slack_nodes)"))
+    run.ob("adjacency|virtual-node-to-every-slack", ok, "one edge from the virtual node to every slack node", w)
+    if V is not None:
+        run.ob("adjacency|virtual-node-is-new", key(V) == key(expect(ix, f, "len(node_pit)")),
+               "the virtual node number is the number of nodes (not an existing node)", w, detail=show(V))
+        shp = dict(coo[0].kw).get("shape")
+        run.ob("adjacency|shape", shp is not None and key(shp) == key(("tuple", (mk_opn("+", [V, C(1)]), mk_opn("+", [V, C(1)])))),
+               "the matrix has one extra row/column for the virtual node", w, detail=show(shp) if shp else None)
+        # data length = number of edges
+        d = m["data"]
+        _shape(d[0] == "call" and d[1] in (np_("ones"), np_("full")) and d[2], "edge data vector is np.ones(n)")
+        lens = []
+        for a_ in pf:
+            ln = length_of(a_)
+            _shape(ln is not None, "length of %s" % show(a_)[:80])
+            lens.append(ln)
+        def nl(t):
+            # len(x[mask]) == sum(mask)
+            if isinstance(t, tuple):
+                if t and t[0] == "call" and t[1] == ("x", "builtins.len") and len(t[2]) == 1 and t[2][0][0] == "idx" \
+                        and len(t[2][0][2]) == 1 and t[2][0][2][0][0] != "slice":
+                    return length_of(t[2][0])
+                if t and t[0] == "opn":
+                    return mk_opn(t[1], [nl(x) for x in t[2]])
+                return tuple(nl(x) for x in t)
+            return t
+        run.ob("adjacency|data-length", key(nl(d[2][0])) == key(mk_opn("+", lens)),
+               "the data vector has one entry per edge", w, detail="%s vs %s" % (show(d[2][0])[:150], show(mk_opn("+", lens))[:150]))
+        bfs = [c for c in r.calls() if c.fn[0] == "x" and c.fn[1].endswith("breadth_first_order")]
+        _shape(len(bfs) == 1, "one breadth_first_order search")
+        ba = list(bfs[0].args) + [None] * 4
+        kw = dict(bfs[0].kw)
+        start = ba[1] if ba[1] is not None else kw.get("i_start")
+        dirn = ba[2] if ba[2] is not None else kw.get("directed", C(True))
+        pred = ba[3] if ba[3] is not None else kw.get("return_predecessors", C(True))
+        run.ob("search|starts-at-virtual-node", start is not None and key(start) == key(V), "the search starts at the virtual node", w)
+        run.ob("search|directed", dirn == C(True), "the search respects edge direction (DIRECTED branches connect only from -> to)", w)
+        R = bfs[0].term if pred == C(False) else ("proj", bfs[0].term, 0)
+        rets = r.returns()
+        _shape(len(rets) == 1 and rets[0].value[0] in ("tuple", "list") and len(rets[0].value[1]) == 2, "returns (nodes_connected, branches_connected)")
+        nc, bc = rets[0].value[1]
+        want_nc = ("upd", expect(ix, f, "np.zeros(len(active_node_lookup), dtype=bool)"),
+                   (expect(ix, f, "R[R != V]", env={"R": R, "V": V}),), C(True))
+        run.ob("search|nodes-connected", key(nc) == key(want_nc),
+               "nodes_connected is True exactly for the reached nodes other than the virtual node", w, detail=show(nc)[:200])
+        ok = key(bc) in {key(expect(ix, f, t, env={"N": nc})) for t in
+                         ("active_branch_lookup & N[branch_pit[:, FROM_NODE]]", "active_branch_lookup & N[branch_pit[:, TO_NODE]]",
+                          "active_branch_lookup & N[branch_pit[:, FROM_NODE]] & N[branch_pit[:, TO_NODE]]")}
+        run.ob("search|branches-connected", ok, "a branch is connected iff it is active and its end node was reached", w, detail=show(bc)[:200])
+    chk = [e for e in r.raises() if e.cond and any(contains(c, From) or contains(c, To) for c, _ in e.cond)]
+    run.ob("search|undirected-end-consistency-asserted", len(chk) >= 1,
            "both ends of an undirected active branch must have the same reachability (asserted)", w)
-    run.floor(15)
+    run.floor(12)
 
 
 RULES = [("R4.1", r4_1), ("R4.2", r4_2), ("R4.3", r4_3), ("R4.4", r4_4), ("R4.5", r4_5), ("R4.7", r4_7)]
